@@ -70,6 +70,8 @@ void QXmppIncomingClientPrivate::checkCredentials(const QByteArray &response)
         QXmppPasswordReply *reply = passwordChecker->checkPassword(request);
         reply->setParent(q);
         reply->setProperty("__sasl_raw", response);
+        // the reply approves this user name, whatever exchange is in progress when it arrives
+        reply->setProperty("__sasl_username", request.username());
         QObject::connect(reply, &QXmppPasswordReply::finished,
                          q, &QXmppIncomingClient::onPasswordReply);
     } else if (saslServer->mechanism() == u"DIGEST-MD5") {
@@ -473,6 +475,11 @@ void QXmppIncomingClient::onDigestReply()
     }
     reply->deleteLater();
 
+    // the exchange this reply belongs to is over (e.g. another pipelined request has been answered)
+    if (!d->saslServer) {
+        return;
+    }
+
     if (reply->error() == QXmppPasswordReply::TemporaryError) {
         warning(u"Temporary authentication failure for '%1' from %2"_s.arg(d->saslServer->username(), d->origin()));
         Q_EMIT updateCounter(u"incoming-client.auth.temporary-auth-failure"_s);
@@ -519,7 +526,13 @@ void QXmppIncomingClient::onPasswordReply()
     }
     reply->deleteLater();
 
-    const QString jid = u"%1@%2"_s.arg(d->saslServer->username(), d->domain);
+    // the exchange this reply belongs to is over (e.g. another pipelined request has been answered)
+    if (!d->saslServer) {
+        return;
+    }
+
+    // the identity is the user name the checker was asked about, not the one of a later request
+    const QString jid = u"%1@%2"_s.arg(reply->property("__sasl_username").toString(), d->domain);
     switch (reply->error()) {
     case QXmppPasswordReply::NoError:
         d->jid = jid;
